@@ -11,10 +11,17 @@
 (* ticks in the model, epoch seconds in recorded traces): only their order  *)
 (* matters.                                                                  *)
 (***************************************************************************)
-EXTENDS Integers
+EXTENDS Integers, Sequences
 
 NoRet == [mode |-> "NONE", until |-> 0]
 Active(r, now) == r.mode # "NONE" /\ r.until > now
+
+\* The bypass permission is granted by the bucket policy per caller and per RESOURCE: a
+\* grant is the string "<caller>:<scope>", scope "*" (every key of the bucket, resource
+\* arn:aws:s3:::bkt/*) or a key (resource arn:aws:s3:::bkt/<key>).  Whether a caller
+\* holds the permission is therefore a question about a caller AND a key.
+Grant(c, scope) == c \o ":" \o scope
+HasBypass(perm, c, k) == Grant(c, "*") \in perm \/ Grant(c, k) \in perm
 
 \* May this request bypass a GOVERNANCE retention?  has: the caller holds the
 \* (policy-granted) permission s3:BypassGovernanceRetention; hdr: the request carries
